@@ -54,6 +54,17 @@ impl<'a> Visit<'a> for MatchFinder<'a> {
         self.hits.push(m);
         visit::visit_expr_match(self, m);
     }
+    // a `match` passed to a macro as an argument (e.g. the fallback block of `for_all_variant_pairs!(…, { match (self, other) { … } })`):
+    // when the macro's arguments parse as a comma-separated list of expressions they are searched too (the source bytes of
+    // the arm are copied all the same; that the macro evaluates this argument is stated in the unit)
+    fn visit_macro(&mut self, m: &'a syn::Macro) {
+        if let Ok(args) = m.parse_body_with(syn::punctuated::Punctuated::<Expr, syn::Token![,]>::parse_terminated) {
+            let leaked: &'static Vec<Expr> = Box::leak(Box::new(args.into_iter().collect()));
+            for e in leaked.iter() {
+                self.visit_expr(e);
+            }
+        }
+    }
 }
 
 struct LetFinder<'a> {
@@ -262,7 +273,13 @@ pub fn render_frag(r: &R, fr: FnRef, sel: &str, header: &str) -> Result<(String,
             mf.visit_block(block);
             let cands: Vec<&&syn::ExprMatch> = mf.hits.iter().filter(|m| norm(r.verb(m.expr.span())).starts_with(&norm(&scrut))).collect();
             let m = cands.get(ord).ok_or_else(|| format!("lost anchor: match on `{}`#{} not found", scrut, ord))?;
-            let arms: Vec<&syn::Arm> = m.arms.iter().filter(|a| norm(r.verb(a.pat.span())) == norm(pat)).collect();
+            // a selector `<pattern> if <guard>` names the guarded arm; a bare `<pattern>` names the arm without a guard
+            let arms: Vec<&syn::Arm> = m.arms.iter().filter(|a| match &a.guard {
+                Some((_, g)) => norm(&format!("{} if {}", r.verb(a.pat.span()), r.verb(g.span()))) == norm(pat),
+                None => norm(r.verb(a.pat.span())) == norm(pat),
+            }).collect();
+            // (a bare pattern that names no unguarded arm may still name a single guarded one)
+            let arms: Vec<&syn::Arm> = if arms.is_empty() { m.arms.iter().filter(|a| norm(r.verb(a.pat.span())) == norm(pat)).collect() } else { arms };
             if arms.len() != 1 {
                 return Err(format!("lost anchor: {} arms with pattern `{}`", arms.len(), pat));
             }
@@ -343,7 +360,13 @@ pub fn render_frag(r: &R, fr: FnRef, sel: &str, header: &str) -> Result<(String,
     if let Some(sa) = r.opts.get("self_as") {
         r.renames.borrow_mut().insert("self".into(), sa.to_string());
     }
-    let body = r.expr(frag);
+    let mut body = r.expr(frag);
+    if let Some(w) = r.opts.get("wrap") {
+        // the fragment is the operand of `W(match … { pat => FRAGMENT, … })` in the real code (e.g. `Ok(match name { … })`):
+        // the lifted function returns what the enclosing expression returns for this arm
+        r.note(format!("fragment wrapped in the enclosing constructor `{}(…)`", w));
+        body = format!("{}({})", w, body);
+    }
     r.renames.borrow_mut().remove("self");
     r.note(format!("fragment `{}` lifted to a function (parameters = free variables, checked)", sel));
     let mut s = String::new();
